@@ -12,7 +12,7 @@ RULE = ("spec->code: every abstract text of the ReadInstances family C07 (declar
 def run(ctx, prop="C07", family="C07", engines_each=True):
     rng = random.Random(ctx.seed)
     thorough = ctx.tier == "thorough"
-    insts = lastext.instances(ctx, family, 3, 5 if thorough else 4, 4, thorough)
+    insts = lastext.instances(ctx, family, 4 if thorough else 3, 6 if thorough else 4, 5 if thorough else 4, thorough)
     ctx.exhaustive = True
     events, meta = [], []
     reps = 6 if thorough else 3
